@@ -89,7 +89,7 @@ def gen_c16(rng):
 
 class Lane(LaneBase):
     PROP = 'C16'
-    THEOREMS = []
+    THEOREMS = 'auto'
     AUDIT = 'CG/Audit/C16.lean'
     DIFF_IS_FAILURE = False
     RULE = ('template sets instantiated partially or completely over windows [-3..0, 0] (55 % directed-only DAG inputs, '
